@@ -242,7 +242,7 @@ def cases(draw, maxdepth=4):
 
 
 def campaign_random(ctx):
-    ctx.search(cases(4 if ctx.thorough else 3), oracle_factory(ctx), ctx.budget(12000, 600000))
+    ctx.search(cases(4 if ctx.thorough else 3), oracle_factory(ctx), ctx.budget(36000, 600000))
 campaign_random.shards = (6, 16)
 
 
